@@ -10,6 +10,7 @@ pub mod heap;
 static GLOBAL: heap::Tracker = heap::Tracker;
 pub mod shapes;
 pub mod queries;
+pub mod mutate;
 pub mod sched;
 pub mod sched_kinds;
 
@@ -545,6 +546,50 @@ impl Driver {
                         json!({"res": {"ok": true}})
                     }
                     Err(e) => json!({"res": {"ok": false, "err": e}}),
+                }
+            }
+            "deser_mut" => {
+                // C11: serialize world w, mutate the encoding, try to deserialize into slot dst
+                let dst = op["dst"].as_u64().unwrap() as usize;
+                assert!(self.ws[dst - 1].is_none(), "harness: deser_mut into live world");
+                let enc = op["enc"].as_str().unwrap().to_string();
+                let kind = op["mkind"].as_str().unwrap().to_string();
+                let pos = op["mpos"].as_u64().unwrap() as usize;
+                let s = self.slot(w);
+                let (r, desc, same): (Result<Wd, String>, String, bool) = match enc.as_str() {
+                    "json" => {
+                        let text = serde_json::to_string(&s.world).unwrap();
+                        let (m, d) = mutate::mutate_json(&text, &kind, pos);
+                        let same = m == text;
+                        (heap::lib(|| serde_json::from_str::<Wd>(&m).map_err(|e| format!("{e}"))), d, same)
+                    }
+                    _ => {
+                        let hr = enc == "tok_hr";
+                        let ser = serde_assert::Serializer::builder().is_human_readable(hr).build();
+                        let tokens = s.world.serialize(&ser).unwrap();
+                        let (m, d) = mutate::mutate_tokens(&tokens.0, &kind, pos);
+                        let same = format!("{:?}", m) == format!("{:?}", tokens.0);
+                        let mut de = serde_assert::Deserializer::builder()
+                            .tokens(serde_assert::Tokens(m))
+                            .is_human_readable(hr)
+                            .self_describing(false)
+                            .build();
+                        (heap::lib(|| Wd::deserialize(&mut de).map_err(|e| format!("{e}"))), d, same)
+                    }
+                };
+                match r {
+                    Ok(world) => {
+                        // the lineage of a world built from untrusted input: the identifiers it holds
+                        let mut world = world;
+                        let mut issued = Vec::new();
+                        for result!(id) in world.query(Query::<Views!(entity::Identifier)>::new()).iter {
+                            issued.push(id);
+                        }
+                        issued.sort_by_key(|x| brood::verif::id_parts(*x));
+                        self.ws[dst - 1] = Some(Slot { world, issued });
+                        json!({"res": {"ok": true, "mut": desc, "same": same}})
+                    }
+                    Err(e) => json!({"res": {"ok": false, "err": e.chars().take(120).collect::<String>(), "mut": desc, "same": same}}),
                 }
             }
             "getmut" => {
